@@ -56,7 +56,7 @@ def make_variants(ctx, cases, enc, per_case):
                           dict(kind='pt-ber-encoding', spec=c.text, type=c.tname, value=repr(c03.api_value(c)),
                                numeric=c.numeric, data=data.hex(), problems=problems))
             continue
-        for k in range(per_case):
+        for k in range(1 if len(data) > 5000 else 2 if c.corner else per_case):
             mix = rng.random()
             if mix < .15:
                 st = cb.Style(rng, indefinite=1, pad=0, segment=0, permute=0)       # indefinite everywhere
@@ -114,7 +114,7 @@ def corr_variants(ctx, batch, variants, n_mut):
         inputs = [('variant', var)]
         if rng.random() < .2:
             inputs.append(('variant+tail', var + bytes(rng.randrange(256) for _ in range(rng.choice([1, 2, 4])))))
-        for _ in range(n_mut):
+        for _ in range(n_mut if len(var) < 5000 else 0):
             inputs.append(c03.mutate(rng, var))
         c03.add_decode_checks(ctx, batch, c, inputs, 'ber', cb, 'BER', extra_key=(min(len(used), 3),))
 
@@ -157,7 +157,7 @@ def run(ctx):
         'harness/codec_ber.py: independent TLV parser / rewriter / tag calculator',
         'proposed_fixes/C04-*.diff (and C03-*): the model follows the repaired behaviour']
     known_findings(ctx)
-    mods, cases = c03.gen_cases(ctx, 40 if ctx.quick else 450, 3, codec='ber')
+    mods, cases = c03.gen_cases(ctx, 30 if ctx.quick else 450, 3, codec='ber')
     ctx.log('%d modules, %d (type, value) cases' % (len(mods), len(cases)))
     batch = c03.Batch(ctx, mods)
     enc = c03.corr_encode(ctx, batch, cases, codec='ber', cmod=cb, label='BER')
